@@ -32,11 +32,11 @@ RULE = ("Each run = one seeded simulated ET run (1-4 restarts with "
         "enum mode, op kinds).")
 PROBES = ['multi_chunk_read', 'overlap_iteration_served', 'tensor_name_read',
           'all_vars_read', 'explicit_restart_read', 'kd_raise_accepted',
-          'kd_exact', 'absent_iteration_raise_accepted', 'level1_read',
+          'absent_iteration_raise_accepted', 'level1_read',
           'per_proc_layout', 'grouped_layout', 'unknown_group_scan',
           'enum_permuted', 'numbering_permuted', 'join_direct',
           'P_ge_10', 'three_chunks', 'two_chunks', 'skip_last_default',
-          'stride_change', 'mixed_grouping_raise_accepted']
+          'stride_change']
 COMPONENTS = {
     'aurel.reading (iterations, get_content, read_data/read_ET_data, '
     'read_ET_variables, read_ET_group_or_var, join_chunks, fixij, name maps)':
@@ -128,7 +128,7 @@ def simplify(run):
     if run['enum']['mode'] != 'sorted':
         c = copy.deepcopy(run); c['enum']['mode'] = 'sorted'; yield c
     used_restarts = {o.get('restart', -1) for o in run['ops']}
-    if len(cfg['restarts']) > 1 and max(used_restarts) < len(
+    if len(cfg['restarts']) > 1 and max(used_restarts, default=-1) < len(
             cfg['restarts']) - 1:
         c = copy.deepcopy(run); c['config']['restarts'].pop(); yield c
     for flag, val in (('with_m', False), ('c_single', False), ('xyz', ''),
